@@ -8,8 +8,8 @@ import (
 )
 
 func init() {
-	props["C01"] = &prop{gen: genC01, eval: evalC01}
-	props["C09"] = &prop{gen: genC09, eval: evalC09}
+	props["C01"] = &prop{gen: genC01, eval: evalC01, pure: true}
+	props["C09"] = &prop{gen: genC09, eval: evalC09, pure: true}
 }
 
 // ---------- C01: wire codec ----------
